@@ -259,6 +259,28 @@ def r07b(R):
     R.check(sr, 'x < 0 -> 0; x > 65535 -> 65535; else round(x)',
             lows == 1 and highs == 1 and rounds == 1,
             'matrix cells are not clamped to 0..65535 and rounded')
+    # every component is kept, and only a missing cell stays None
+    loops = [n for n in cfg.nodes if n.kind == 'for'
+             and norm(n.ast.iter) == sr.params[0]]
+    appends = [n for n in cfg.nodes for c in n.calls()
+               if isinstance(c.func, ast.Attribute) and c.func.attr == 'append']
+    ok = len(loops) == 1 and bool(appends)
+    if ok:
+        lp = loops[0]
+        body = [m for m, lab in lp.succs if lab is True]
+        target = norm(appends[0].calls()[0].func.value) if appends[0].calls() else ''
+        ok = cfg.find_path(body, lambda n: n is lp, avoid=appends) is None and any(
+            r.ret_expr is not None and norm(r.ret_expr) == target
+            for r in cfg.return_nodes())
+    R.check(sr, 'every component of the cell is kept (appended, list returned)',
+            ok, 'a standardised cell does not contain all four components')
+    none_rets = [r for r in cfg.return_nodes() if r.ret_expr is not None
+                 and isinstance(r.ret_expr, ast.Constant) and r.ret_expr.value is None]
+    okn = all(('%s is None' % sr.params[0], True) in A.path_facts(sr, r)
+              for r in none_rets)
+    R.check(sr, 'None only for a missing cell', okn,
+            'a real cell colour is turned into None (the test for a missing '
+            'cell is reversed): the tile message carries no colours')
     gc = A.func(MATRIX, 'ColorMatrix.get_colors')
     ok = any(isinstance(n, ast.ListComp) and isinstance(n.elt, ast.Call)
              and 'ColorMatrix._standardize_raw' in A.callee_names(gc, n.elt)
@@ -579,11 +601,22 @@ def r07c(R):
         for i, (elt, want) in enumerate(zip(ret.elts, exp)):
             if want is None:
                 continue
-            # max(x, 0.0) wrappers
+            # max(x, 0.0) wrappers: a lower clamp at zero (and nothing else)
             e = elt
+            clamp_ok = True
             while isinstance(e, ast.Call) and norm(e.func) in ('max', 'round') \
                     and e.args:
+                if norm(e.func) == 'max':
+                    others = [A.try_fold(a, f, 'x') for a in e.args[1:]]
+                    if len(e.args) != 2 or others != [0]:
+                        clamp_ok = False
                 e = e.args[0]
+            if not clamp_ok:
+                R.fail(f, elt, 'component %d of units.%s is clamped from '
+                       'below at something other than 0: small values are '
+                       'raised to the clamp (e.g. hue 0 comes back as 1)'
+                       % (i, name))
+                continue
             why = ''
             try:
                 got = _single(linear(A, f, e, env))
